@@ -12,6 +12,7 @@ import (
 	"time"
 
 	"github.com/go-logr/logr"
+	"github.com/ovn-org/libovsdb/cache"
 	"github.com/ovn-org/libovsdb/client"
 	"github.com/ovn-org/libovsdb/database/inmemory"
 	"github.com/ovn-org/libovsdb/model"
@@ -76,7 +77,9 @@ func ctxT(d time.Duration) (context.Context, context.CancelFunc) {
 }
 
 // cacheDump: the rows a client's cache holds, per table
-func cacheDump(c client.Client, cdb *DB, tables []string) []DumpRow {
+type cacheClient interface{ Cache() *cache.TableCache }
+
+func cacheDump(c cacheClient, cdb *DB, tables []string) []DumpRow {
 	var out []DumpRow
 	for _, t := range tables {
 		tc := c.Cache().Table(t)
@@ -113,7 +116,7 @@ func projectDump(spec SchemaSpec, d []DumpRow, cols map[string][]string) []DumpR
 				}
 			}
 			if keep {
-				row[c.Name] = r.Row[c.Name]
+				row[c.Name] = sortedValue(r.Row[c.Name])
 			} else {
 				row[c.Name] = zeroValue(c.Type)
 			}
@@ -133,3 +136,21 @@ func toOvsOps(ops []OperationJ) []ovsdb.Operation {
 
 var _ = inmemory.NewDatabase
 var _ model.Model
+
+// sortedValue: sets and maps in a canonical order (the model compares rows structurally)
+func sortedValue(v *Value) *Value {
+	if v == nil {
+		return nil
+	}
+	switch v.K {
+	case 'S':
+		out := append([]Atom{}, v.S...)
+		sort.Slice(out, func(i, j int) bool { return out[i].Key() < out[j].Key() })
+		return &Value{K: 'S', S: out}
+	case 'M':
+		out := append([][2]Atom{}, v.M...)
+		sort.Slice(out, func(i, j int) bool { return out[i][0].Key() < out[j][0].Key() })
+		return &Value{K: 'M', M: out}
+	}
+	return v
+}
